@@ -67,6 +67,14 @@ def scenarios(tier):
                     else:
                         E = 2 if (length <= 1 and n == 2) else (1 if (length <= 3 and n == 2) else 0)
                     out.append(Scenario('io', n=n, evs=[list(e) for e in evs], drain=drain, E=E, nodet=(E == 0)))
+    # dense periodic checks + workers that take 0.15 s to die: a kill's polling window then straddles a reap/respawn tick
+    menu2 = worker_menu(tier, 2)
+    for length in (1, 2):
+        for seq in itertools.product(range(len(menu2)), repeat=length):
+            evs = [menu2[i] for i in seq]
+            if _feasible(evs) and (tier != 'quick' or all(e[0] == 'w' for e in evs)):
+                out.append(Scenario('io', n=2, evs=[list(e) for e in evs], drain='each', E=1 if tier == 'quick' else 2,
+                                    tick=0.13, beh='slow'))
     out.append(Scenario('cycles', reps=50 if tier != 'quick' else 50, nodet=True))
     return out
 
@@ -118,11 +126,14 @@ def run(scn, ch):
     if scn.name == 'cycles':
         return _run_cycles(scn, ch, res, log)
     n = scn.n
-    world = World(ch, [WSpec('a', numprocesses=n, graceful_timeout=0.1,
+    from vt.simkernel import slow
+    beh = [slow(0.15)] if scn.p.get('beh') == 'slow' else None
+    world = World(ch, [WSpec('a', numprocesses=n, graceful_timeout=0.5 if beh else 0.1, behaviours=beh,
                              stdout_stream={'stream': Collector('stdout', log)},
                              stderr_stream={'stream': Collector('stderr', log)}),
                        WSpec('b', numprocesses=1, graceful_timeout=0.1,
-                             stdout_stream={'stream': Collector('stdout', log)})])
+                             stdout_stream={'stream': Collector('stdout', log)})],
+                  check_delay=scn.p.get('tick', 1.0))
     written = {}
 
     def extra(world):
@@ -193,7 +204,18 @@ def run(scn, ch):
         _drain(world, res, menu)
         win.open = False
         # let a periodic check pass (respawns), then a final drain
-        world.settle(1)
+        world.run(horizon=max(1.0, world.check_delay) + 0.01)
+        _drain(world, res, None)
+        # epilogue: every worker alive now (respawned successors included) writes on both channels; this output
+        # must arrive too - a successor whose descriptors were unregistered by a late clean-up of its predecessor
+        # (descriptor numbers are reused) would stay mute
+        for p in world.kernel.running_workers():
+            for chn, fd in (('stdout', p.out_w), ('stderr', p.err_w)):
+                if fd is not None:
+                    off = len(written.get((p.pid, chn), b''))
+                    data = payload(p.pid, chn, off, 7)
+                    os.write(fd, data)
+                    written[(p.pid, chn)] = written.get((p.pid, chn), b'') + data
         _drain(world, res, None)
         for (t, pid, s, via) in world.kernel.signal_log:
             terminated_by_daemon.add(pid)
